@@ -238,10 +238,10 @@ package num
 //
 // ---- C06: text codec. The accepted language is the published pattern
 // ^\-?[0-9]+(\.[0-9]+)?$ ; verified in the SMT string theory.
-//@ spec amountPattern(s string) bool = inre(s, "(re.++ (re.opt (str.to_re \"-\")) (re.+ (re.range \"0\" \"9\")) (re.opt (re.++ (str.to_re \".\") (re.+ (re.range \"0\" \"9\")))))")
+//@ spec amountPattern(s string) bool = s_inre(s, "(re.++ (re.opt (str.to_re \"-\")) (re.+ (re.range \"0\" \"9\")) (re.opt (re.++ (str.to_re \".\") (re.+ (re.range \"0\" \"9\")))))")
 //
 //@ func AmountFromString(val) (a, err)
 //@   strings
 //@   bound len(val) in 0..5 for sound.int, sound.dec
-//@   ensures [sound.int] err == nil && !contains(val, ".") ==> amountPattern(val)
-//@   ensures [sound.dec] err == nil && contains(val, ".") ==> amountPattern(val)
+//@   ensures [sound.int] err == nil && !s_contains(val, ".") ==> amountPattern(val)
+//@   ensures [sound.dec] err == nil && s_contains(val, ".") ==> amountPattern(val)
